@@ -13,6 +13,8 @@ import I2N.Model.Transfer
     job <pid> <op> <cache> <pool> <timeout>
     init                              protocol machine over the current file system
     act <pid> <start|tryLock|step|unlock|raise|crash>     -> ok pc=<..> owner=<..> | disabled
+    actto <pid> <i>                   `step` through steps < i of the body, then perform step i  -> as act | skipped pc=..
+    untilfail <pid>                   `step` until the process left the critical section (max 6)  -> as act
     runcs <op> <cache> <pool>         the body run step by step without interference (updates fs)
     hist                              history of the machine, chronological
     trace <ev> ...                    mutexTrace on  a,<pid>,<path> r,<pid>,<path> f,<pid>,<path> c,<pid> t,<pid>
@@ -79,6 +81,33 @@ def fin (s : St) (r : Except Err FS) : St × String :=
   | .ok fs' => ({ s with fs := fs' }, "ok")
   | .error e => (s, "error:" ++ showErr e)
 
+def ownerStr (s : St) (m : State) (k : Nat) : String :=
+  match m.owner (s.job k).pool with | some q => toString q | none => "-"
+
+def answer (s : St) (m : State) (k : Nat) : String := s!"ok pc={showPC (m.pc k)} owner={ownerStr s m k}"
+
+/-- `step` through the steps before `target` (they have no real call), then perform step `target` -/
+def actTo (s : St) (m : State) (k target : Nat) : Nat → State × String
+  | 0 => (m, "disabled")
+  | fuel + 1 =>
+    match m.pc k with
+    | .inCS i =>
+      if i > target then (m, s!"skipped pc={showPC (m.pc k)}")
+      else match stepAct s.limit s.job m k .step with
+        | none => (m, "disabled")
+        | some m' => if i = target then (m', answer s m' k) else actTo s m' k target fuel
+    | _ => (m, answer s m k)
+
+def untilFail (s : St) (m : State) (k : Nat) : Nat → State × String
+  | 0 => (m, answer s m k)
+  | fuel + 1 =>
+    match m.pc k with
+    | .inCS _ =>
+      match stepAct s.limit s.job m k .step with
+      | none => (m, answer s m k)
+      | some m' => untilFail s m' k fuel
+    | _ => (m, answer s m k)
+
 def step (s : St) (line : String) : St × String :=
   match (line.trimAscii.toString.splitOn " ") with
   | ["limit", n] => match n.toNat? with
@@ -109,12 +138,21 @@ def step (s : St) (line : String) : St × String :=
     match pid.toNat?, parseAct a, s.m with
     | some k, some act, some m =>
       match stepAct s.limit s.job m k act with
-      | some m' =>
-        let j := s.job k
-        let ow := match m'.owner j.pool with | some q => toString q | none => "-"
-        ({ s with m := some m', fs := m'.fs }, s!"ok pc={showPC (m'.pc k)} owner={ow}")
+      | some m' => ({ s with m := some m', fs := m'.fs }, answer s m' k)
       | none => (s, "disabled")
     | _, _, _ => (s, "bad-op")
+  | ["actto", pid, tgt] =>
+    match pid.toNat?, tgt.toNat?, s.m with
+    | some k, some t, some m =>
+      let (m', a) := actTo s m k t 8
+      ({ s with m := some m', fs := m'.fs }, a)
+    | _, _, _ => (s, "bad-op")
+  | ["untilfail", pid] =>
+    match pid.toNat?, s.m with
+    | some k, some m =>
+      let (m', a) := untilFail s m k 6
+      ({ s with m := some m', fs := m'.fs }, a)
+    | _, _ => (s, "bad-op")
   | ["runcs", op, c, p] =>
     match parseOp op with
     | some o => fin s (runCS s.limit o c p 8 0 s.fs)
